@@ -10,7 +10,7 @@ PROPS = ["Props/C06.v"] + (["Props/C06poll.v"] if os.path.exists(os.path.join(os
 THEOREMS = ["C06_never_worse_than_start", "C06_monotone_progress", "C06_always_stops", "C06_poll_descent"]
 LEVEL = "proof"
 RULE = ("(a) deterministic real runs compared with the skeleton model (premises det_ok evaluated per event) for the per-run clause; (b) the population clause is SAMPLED, never proved: "
-        "panel of random rotated quadratics (eigenvalues in [1,100], minimiser in [-4,4]^D, start uniform in the plausible box, D 1..5, default options): quick 20 problems with a gross threshold "
+        "panel of random rotated quadratics (eigenvalues in [1,100], minimiser in [-4,4]^D, start uniform in the plausible box, D 1..5, default options) in three strata: standard (f* = 0, plausible box [-5,5]^D), offset (minimum VALUE +-2e3..2e4), wide (plausible box [-50,50]^D), each with its own threshold: quick 20 problems with a gross threshold "
         "(VIOLATION only if < 60% within 1e-3 or any run is worse than its start), thorough 70 problems with the property's thresholds (>= 90% within 1e-3; median evaluations-to-1e-2 <= 40*D)")
 TRUSTED = ["Coq 8.16.1 kernel + vm_compute", "hand-written model Model/Skeleton.v tied per loop iteration to real runs",
            "POPULATION CLAUSE OUTSIDE THE FAMILY: a statistical statement about gpyreg's hyper-parameter optimiser and the ES sampler; a passing panel is a sample, not the basis of 'holds'"]
@@ -23,7 +23,7 @@ def tie(ctx, broken):
     specs = [s for s in S.panel(ctx.tier, ctx.seed) if s["noise"] == "det"][:6]
     out = R.tie_skeleton(ctx, broken, [(s, None) for s in specs], "c06")
     R.apply_monitor(ctx, out, R.mon_c04)
-    n = 20 if ctx.quick else 70
+    n = 20 if ctx.quick else 80      # blocks of 5 (D = 1..5) cycling through the strata standard / offset / standard / wide
     with ProcessPoolExecutor(max_workers=14) as ex:
         res = list(ex.map(Qp.run_one, [(i, ctx.seed) for i in range(n)]))
     ok3 = [r for r in res if r["fval"] is not None and r["fval"] <= 1e-3]
@@ -43,6 +43,20 @@ def tie(ctx, broken):
     if len(ok3) < thr * n:
         ctx.violate("population-accuracy", f"only {len(ok3)}/{n} panel problems within 1e-3 of the minimum (threshold {thr:.0%}); failures: {[(r['i'], r['D'], r['fval'], r['exc']) for r in res if r not in ok3][:6]}",
                     dict(kind="quadpanel", n=n, seed=ctx.seed))
+    # per stratum (5 problems each in the quick tier): a change that only hurts targets whose minimum VALUE is far from zero, or
+    # generous plausible boxes, must not hide behind the standard problems
+    strata = {}
+    for r in res:
+        st = strata.setdefault(r["stratum"], [0, 0])
+        st[0] += 1
+        st[1] += int(r["fval"] is not None and r["fval"] <= 1e-3)
+    ctx.coverage["population_panel"]["per_stratum_within_1e3"] = {k: f"{v[1]}/{v[0]}" for k, v in strata.items()}
+    sthr = 0.5 if ctx.quick else 0.75
+    for k, (tot, good) in strata.items():
+        if good < sthr * tot and len(ok3) >= thr * n:
+            ctx.violate("population-accuracy:" + k, f"stratum '{k}': only {good}/{tot} problems within 1e-3 of the minimum (threshold {sthr:.0%}); "
+                        f"failures: {[(r['i'], r['D'], r['fval']) for r in res if r['stratum'] == k and not (r['fval'] is not None and r['fval'] <= 1e-3)][:5]}",
+                        dict(kind="quadpanel", n=n, seed=ctx.seed, stratum=k))
     if not ctx.quick and (med is None or med > 1.0):
         ctx.violate("population-speed", f"panel median evaluations-to-1e-2 = {med} x 40*D (threshold 1)", dict(kind="quadpanel", n=n, seed=ctx.seed))
 
@@ -60,7 +74,9 @@ def replay(ctx, rp):
     if r.get("kind") == "quadpanel":
         with ProcessPoolExecutor(max_workers=14) as ex:
             res = list(ex.map(Qp.run_one, [(i, r["seed"]) for i in range(r["n"])]))
+        if r.get("stratum"):
+            res = [x for x in res if x["stratum"] == r["stratum"]]
         ok3 = sum(1 for x in res if x["fval"] is not None and x["fval"] <= 1e-3)
-        print(f"replay panel: {ok3}/{r['n']} within 1e-3")
-        return 1 if ok3 < 0.9 * r["n"] else 0
+        print(f"replay panel{' stratum ' + r['stratum'] if r.get('stratum') else ''}: {ok3}/{len(res)} within 1e-3")
+        return 1 if ok3 < (0.75 if r.get("stratum") else 0.9) * len(res) else 0
     return R.generic_replay(ctx, rp, [R.mon_c04])
